@@ -94,6 +94,17 @@ PROPS = {
         required="spec",
         nontrivial="history contains a change set with a repeated entity and a join over it that yields at least one item",
     ),
+    "C08": dict(
+        domain="world", module="Props.C08",
+        theorems=["C08_never_exposes_an_unwritten_or_moved_out_slot", "C08_remove_hands_back_the_stored_value",
+                  "C08_overwrite_hands_back_the_old_value", "C08_refused_insert_destroys_the_refused_value",
+                  "C08_delete_destroys_exactly_that_value", "C08_clear_empties", "C08_vec_clean_destroys_the_masked_slots_once",
+                  "C08_map_clean_destroys_every_value_once", "C08_null_clean_materialises_one_unit_per_member",
+                  "C08_lazy_values_are_applied_or_destroyed"],
+        required="spec",
+        nontrivial="history moves at least five values in, hands at least one back, destroys at least one by deletion or "
+                   "clear, and ends with the world being dropped",
+    ),
     "C18": dict(
         domain="derive", module="Props.C18",
         theorems=["C18_round_trip", "C18_round_trip_supported", "C18_entities_through_mapping",
@@ -274,6 +285,16 @@ def run_world_shard(exe, drv, d, shard, hists, fixed):
         for h in hists:
             f.write(wg.encode(h) + "\n")
     impl_lines = run_harness(exe, "world", hf, hists, shard)
+    # the last entry of every line is the harness' own construction / hand-back ledger (tag 98): not part of the
+    # transcript the model predicts
+    ledgers = []
+    for k, ln in enumerate(impl_lines):
+        head, sep, last = ln.rpartition("|")
+        if last.strip().startswith("98 ") or last.strip() == "98":
+            ledgers.append([int(x) for x in last.split()])
+            impl_lines[k] = head.rstrip()
+        else:
+            ledgers.append(None)
     with open(tf, "w") as f:
         f.write("\n".join(impl_lines) + "\n")
     p = subprocess.run([drv, "world", "1" if fixed else "0", hf, tf], stdout=subprocess.PIPE, text=True, timeout=7200,
@@ -289,7 +310,8 @@ def run_world_shard(exe, drv, d, shard, hists, fixed):
         v = [int(x) for x in v[1:]]
         full = parse_tr(impl_lines[k])
         res.append(dict(hist=h, impl=full[0::2], effects=full[1::2], impl_full=full, model=model, eq=v[0],
-                        complete=v[1], acc_pos=v[2], acc_code=v[3], c01d=v[4], c02d=v[5], extra=v[6:]))
+                        complete=v[1], acc_pos=v[2], acc_code=v[3], c01d=v[4], c02d=v[5], extra=v[6:],
+                        ledger=ledgers[k]))
     return res
 
 
@@ -376,6 +398,15 @@ def world_violation(pid, r):
     if pid == "C04":
         if code == 1 and is_store and not stale:
             return "a storage operation returned something else than the plain map (op %d: %s)" % (pos, wg.NAMES.get(op, op))
+    if pid == "C08":
+        d = ledger_violation(r)
+        if d:
+            return d
+        if code == 4:
+            return "the values destroyed by an operation differ from the specification (op %d: %s)" % (pos, wg.NAMES.get(op, op))
+        if code == 1 and op in (sg.INS, sg.REM, sg.DRN, sg.ENT, sg.GET, sg.GETM, sg.SLC, sg.GMD, jg.JOIN):
+            return "a value handed back or shown by an operation differs from the specification (op %d: %s)" % (
+                pos, wg.NAMES.get(op, op))
     if pid in JOIN_PROPS:
         d = join_direct(pid, r)
         if d:
@@ -439,6 +470,47 @@ def members_read_only(p):
         return False
 
 
+DEFAULT_UID = 1 << 40
+
+
+def ledger_violation(r):
+    """C08 on the implementation alone: the harness' ledger of constructed and handed-back values against
+    the values destroyed (effects entries + teardown)."""
+    lg = r.get("ledger")
+    if not lg or lg[0] != 98:
+        return None
+    exposed = lg[1]
+    if exposed:
+        return "a value that had already been destroyed or handed back was looked at %d time(s)" % exposed
+    i = 2
+    nc = lg[i]; cons = lg[i + 1:i + 1 + nc]; i += 1 + nc
+    nr = lg[i]; rets = lg[i + 1:i + 1 + nr]; i += 1 + nr
+    if i >= len(lg) or lg[i] < 0:
+        return None            # the history ended in a panic: the world was forgotten, nothing more to account
+    nd = lg[i]; final = lg[i + 1:i + 1 + nd]
+    drops = list(final)
+    mints = 0
+    for e in r["effects"]:
+        if e and e[0] == 10:
+            mints += e[1]
+            drops += e[3:3 + e[2]]
+    # values without identity (the unit values of the null storage, uid 0, and default-constructed values) are
+    # accounted together: a default-constructed unit value is destroyed as uid 0
+    anon = lambda u: DEFAULT_UID if u == 0 else u
+    c_in = collections.Counter(anon(u) for u in cons)
+    c_in[DEFAULT_UID] += mints
+    c_out = collections.Counter(anon(u) for u in rets) + collections.Counter(anon(u) for u in drops)
+    for u, n in c_out.items():
+        if n > c_in.get(u, 0):
+            return "value %s was handed back or destroyed %d time(s) but moved in %d time(s)" % (
+                "default/unit" if u == DEFAULT_UID else u, n, c_in.get(u, 0))
+    for u, n in c_in.items():
+        if c_out.get(u, 0) < n:
+            return "value %s was moved in %d time(s) but handed back or destroyed only %d time(s) (leaked)" % (
+                "default/unit" if u == DEFAULT_UID else u, n, c_out.get(u, 0))
+    return None
+
+
 def nontrivial_world(pid, r):
     reuse = any(o and o[0] == 1 and any(g > 1 for g in o[3::2]) for o in r["impl"])
     codes = set(c for c, _ in r["hist"])
@@ -497,6 +569,13 @@ def nontrivial_world(pid, r):
             if pid == "C16" and "cs" in txt:
                 return True
         return False
+    if pid == "C08":
+        lg = r.get("ledger")
+        if not lg or lg[0] != 98 or lg[2] < 5:
+            return False
+        nr = lg[3 + lg[2]]
+        destroyed = any(e and e[0] == 10 and e[2] > 0 for e in r["effects"][:-1])
+        return nr >= 1 and destroyed and r["hist"][-1][0] == sg.DROPW
     if pid == "C05":
         has_comp = any(c in (wg.C, wg.CX, wg.EB) and len(p) >= 3 for c, p in r["hist"]) or sg.INS in codes
         return reuse and has_comp and bool(codes & {wg.D, wg.DM, wg.ED, wg.DA})
@@ -541,6 +620,27 @@ def gen_store(pid, tier, seed, scale, rng, hists, stats):
                 if pid == "C07":
                     h = with_seq_twins(h)
                 hists.append(h)
+                stats["%s-focused join histories" % focus] += 1
+    if pid == "C08":
+        for sid in range(16):
+            for _ in range((12 if q else 150) * scale):
+                hists.append(sg.map_history(rng, rng.randint(10, 60 if q else 200), [sid]) + [(sg.DROPW, [])])
+                stats["per-kind map histories"] += 1
+        for _ in range((150 if q else 2000) * scale):
+            hists.append(sg.map_history(rng, rng.randint(10, 80)) + [(sg.DROPW, [])])
+            stats["mixed-kind map histories"] += 1
+        for _ in range((150 if q else 2000) * scale):
+            hists.append(sg.purge_history(rng))
+            stats["purge histories"] += 1
+        for _ in range((150 if q else 2000) * scale):
+            hists.append(sg.lazy_history(rng, rng.randint(8, 45 if q else 120)))
+            stats["lazy histories"] += 1
+        for _ in range((100 if q else 1500) * scale):
+            hists.append(sg.random_store_history(rng, rng.randint(10, 60)) + [(sg.DROPW, [])])
+            stats["random storage histories"] += 1
+        for focus in ("join", "changeset"):
+            for _ in range((50 if q else 700) * scale):
+                hists.append(jg.join_history(rng, rng.randint(6, 30), focus))
                 stats["%s-focused join histories" % focus] += 1
     if pid == "C04":
         for sid in range(16):
@@ -701,6 +801,8 @@ def check_world(pid, tier, seed):
                      "EDelete", "Maintain", "Create", "GetMutOrDefault"),
              "C09": ("LazyInsert", "LazyInsertAll", "LazyRemove", "LazyExec", "LazyCreate", "Maintain", "Delete", "EDelete"),
              "C04": ("Insert", "Get", "GetMut", "Remove", "Entry", "Drain", "Clear", "Slice", "Mask", "Count"),
+             "C08": ("Insert", "Remove", "Drain", "Entry", "Clear", "Delete", "DeleteMany", "Maintain", "LazyInsert",
+                     "GetMutOrDefault", "DropWorld", "Create", "CreateDropped"),
              "C06": ("Join", "Insert", "Get", "Mask", "DeleteMany", "Maintain", "CreateIter"),
              "C07": ("Join", "Insert", "Get", "Mask", "DeleteMany", "CreateIter"),
              "C13": ("Join", "Insert", "Get", "Mask", "RegReader", "ReadEvents", "DeleteMany"),
